@@ -21,7 +21,7 @@ from spec_classes import Attr, spec_class  # noqa: E402
 
 from vf.sym import Ob, Skip, Violation, assume, check, pick  # noqa: E402
 
-SHAPES = ["attrs", "lazy-parent", "own-new", "base-new", "keyed", "new-positional"]
+SHAPES = ["attrs", "lazy-parent", "own-new", "base-new", "keyed", "new-positional", "mixin-new"]
 
 
 def make_class(shape, bootstrap):
@@ -83,6 +83,25 @@ def make_class(shape, bootstrap):
                 self = super().__new__(cls)
                 object.__setattr__(self, "_made", name)
                 return self
+
+    elif shape == "mixin-new":
+
+        class Mixin:  # mixed into the SUBCLASS after the spec class: its __new__ must run for instances of Sub
+            def __new__(cls, *args, **kwargs):
+                self = super().__new__(cls)
+                object.__setattr__(self, "_made", "mixin")
+                return self
+
+        @spec_class(bootstrap=bootstrap)
+        class C:
+            a: int = Attr(default=3)
+            s: str = "x"
+
+        class Sub(C, Mixin):
+            pass
+
+        ARGS[C] = ARGS[Sub] = ()
+        return C, Sub
 
     else:
 
